@@ -799,7 +799,7 @@ impl Prop for C13 {
         "C13"
     }
     fn rule(&self) -> &'static str {
-        "exhaustive grid: for 26 LineEncoding tuples (line_base -128..0, line_range 1..255 incl. >=128 and divisors of 243, min_inst_len {1,2,4}, max_ops {1,2,3,4}) every (line advance -300..300) x (operation advance 0..600) as a two-row sequence (quick tier: stride over line advances / op advances); random: programs of 1-5 sequences x 0-30 rows with every row field varied, begin_sequence(Some/None)/set_address/implicit starts, a mid-sequence set_address re-stating the current address, end offsets, directories/files with duplicate names, all optional FileInfo fields and file_has_* switches, string forms inline/.debug_line_str/.debug_str, versions 2-5 x formats x address sizes 1/2/4/8 x byte order. Oracle: the generated rows themselves, read back through gimli's reader and, independently, through the harness's own line-number state machine run over the emitted program bytes; file table entries resolved through the emitted string sections. Non-trivial = the writer had to choose a non-default opcode (special with operation advance, const_add_pc, advance_pc or advance_line fallback), decoded from the output; distinct by choice string / by grid cell."
+        "exhaustive grid: for 26 LineEncoding tuples (line_base -128..0, line_range 1..255 incl. >=128 and divisors of 243, min_inst_len {1,2,4}, max_ops {1,2,3,4}) every (line advance -300..300) x (operation advance 0..600) as a two-row sequence (quick tier: stride over line advances / op advances); random: programs of 1-5 sequences x 0-30 rows with every row field varied, begin_sequence(Some/None)/set_address/implicit starts, a mid-sequence set_address re-stating the current address, end offsets, directories/files with duplicate names, all optional FileInfo fields and file_has_* switches, string forms inline/.debug_line_str/.debug_str, versions 2-5 x formats x address sizes 1/2/4/8 x byte order. Oracle: the generated rows themselves, read back through gimli's reader and, independently, through the harness's own line-number state machine run over the emitted program bytes; file table entries resolved through the emitted string sections. Non-trivial = the writer had to choose a non-default opcode (special with operation advance, const_add_pc, advance_pc or advance_line fallback), decoded from the output; distinct by choice string / by grid cell. Later additions: a mid-sequence set_address after a row with a non-zero op_index; get_file_info; no refusal tolerated for uniformly formed embedded sources."
     }
     fn assumptions(&self) -> Vec<&'static str> {
         vec![
